@@ -9,6 +9,7 @@ import (
 	modeltypes "github.com/SaoNetwork/sao/x/model/types"
 	nodetypes "github.com/SaoNetwork/sao/x/node/types"
 	ordertypes "github.com/SaoNetwork/sao/x/order/types"
+	sdk "github.com/cosmos/cosmos-sdk/types"
 	"pgregory.net/rapid"
 )
 
@@ -25,6 +26,7 @@ type LifeCfg struct {
 	TimeoutLo int
 	TimeoutHi int
 	nextCommit int
+	bigDebt    bool // GenDebtCombo picks the largest shard and the longest renewal
 	// Exclusions for open known findings (applied by construction, counted in s.Excluded).
 	NoRenewTopUp      bool // renew duration never raises the shard collateral (h4)
 	NoTerminateQueued bool // no terminate while a renewal has not started
@@ -694,6 +696,14 @@ func (cfg *LifeCfg) GenDebtCombo(t *rapid.T, s *Sim) *Action {
 		return nil
 	}
 	sh := cands[rapid.IntRange(0, len(cands)-1).Draw(t, "debtShard")]
+	if cfg.bigDebt {
+		// the largest stored shard: its top-up (and so the debt) is the largest available
+		for _, c := range cands {
+			if c.Size_ > sh.Size_ {
+				sh = c
+			}
+		}
+	}
 	p := s.acctOf(sh.Sp)
 	bal := s.Last.Bal[sh.Sp]
 	keep := rapid.Int64Range(0, 3).Draw(t, "keep")
@@ -713,6 +723,9 @@ func (cfg *LifeCfg) GenDebtCombo(t *rapid.T, s *Sim) *Action {
 	}
 	a.Data = []string{m.DataId}
 	a.Duration = rapid.Uint64Range(sh.Duration+1000, sh.Duration+3*cfg.MaxDur).Draw(t, "longDur")
+	if cfg.bigDebt {
+		a.Duration = sh.Duration + 3*cfg.MaxDur
+	}
 	a.Timeout = 10
 	return a
 }
@@ -1087,4 +1100,73 @@ func (cfg *LifeCfg) GenPoorTakeover(t *rapid.T, s *Sim) *Action {
 		return c
 	}
 	return nil
+}
+
+// GenClaimBurst: a provider whose storage income is below one coin per block claims several times
+// a few blocks apart (claims that find less than one whole coin pay nothing and must not change
+// what later settlements pay). The first claims are applied here, the last one is returned.
+func (cfg *LifeCfg) GenClaimBurst(t *rapid.T, s *Sim) *Action {
+	var slow []int
+	for _, p := range cfg.Providers {
+		w, ok := s.Last.Workers[s.bech(p)]
+		if ok && !w.IncomePerSecond.Amount.IsNil() && w.IncomePerSecond.Amount.IsPositive() && w.IncomePerSecond.Amount.LT(sdk.OneDec()) {
+			slow = append(slow, p)
+		}
+	}
+	p := rapid.SampledFrom(cfg.Providers).Draw(t, "sp")
+	if len(slow) > 0 {
+		p = slow[rapid.IntRange(0, len(slow)-1).Draw(t, "slowEarner")]
+		s.Label("claim-burst-sub-coin-income")
+	}
+	n := rapid.IntRange(2, 14).Draw(t, "claims")
+	gap := int64(rapid.SampledFrom([]int{1, 1, 2, 3, 10, 40}).Draw(t, "gap"))
+	for i := 0; i < n; i++ {
+		s.Do(NewAction("claim", p))
+		adv := NewAction("advance", 0)
+		adv.Blocks = gap
+		s.Do(adv)
+	}
+	return NewAction("claim", p)
+}
+
+// GenClaimUnderDebt: a provider with recorded collateral debt claims (twice in a row): what it has
+// earned goes into the debt first. When nobody is in debt, a debt is created (GenDebtCombo).
+func (cfg *LifeCfg) GenClaimUnderDebt(t *rapid.T, s *Sim) *Action {
+	var debtors []int
+	for _, sp := range chain.SortedStr(s.Last.Debts) {
+		if d := s.Last.Debts[sp]; !d.Debt.Amount.IsNil() && d.Debt.Amount.IsPositive() {
+			if i := s.acctOf(sp); i >= 0 {
+				debtors = append(debtors, i)
+			}
+		}
+	}
+	if len(debtors) == 0 {
+		// everybody collects what has accrued so far, so that the claim that follows the debt finds
+		// only a few blocks' worth of rewards (less than the debt, for most parameter sets)
+		for _, p := range cfg.Providers {
+			s.Do(NewAction("claim", p))
+		}
+		cfg.bigDebt = rapid.Bool().Draw(t, "bigDebt")
+		defer func() { cfg.bigDebt = false }()
+		return cfg.GenDebtCombo(t, s)
+	}
+	p := debtors[rapid.IntRange(0, len(debtors)-1).Draw(t, "debtor")]
+	s.Label("claim-under-debt")
+	adv := NewAction("advance", 0)
+	adv.Blocks = int64(rapid.SampledFrom([]int{1, 1, 2, 5, 30}).Draw(t, "blocks"))
+	s.Do(adv)
+	// classify: is what the claim will find less than a coin, within the debt, or more than the debt
+	sp := s.bech(p)
+	found := claimable(s.Last, sp)
+	debt := sdk.NewDecFromInt(s.Last.Debts[sp].Debt.Amount)
+	switch {
+	case found.LT(sdk.OneDec()):
+		s.Label("claim-under-debt:block-reward-below-one-coin")
+	case found.LT(debt):
+		s.Label("claim-under-debt:block-reward-within-debt")
+	default:
+		s.Label("claim-under-debt:block-reward-exceeds-debt")
+	}
+	s.Do(NewAction("claim", p))
+	return NewAction("claim", p)
 }
